@@ -42,16 +42,23 @@ for pid in ["C%02d" % i for i in range(1, 21)]:
                 sec = s
                 break
         title = sec.splitlines()[0].lstrip("# ").strip() if sec else ""
+        items = re.split(r"\n\s*\n|\n(?=(?:[*-] +|\*\*)[A-Z*])", "\n" + sec)
         def para(label):
-            m = re.search(r"\*\*%s[^*]*\*\*(.*?)(?=\n\*\*[A-Z]|\n---|\n## |\Z)" % label, sec, re.S)
-            return re.sub(r"\s+", " ", m.group(1)).strip() if m else ""
+            for it_ in items:
+                head = it_.strip()[:90]
+                lab = re.split(r"[:.]\*\*|\*\*[:.]?|:", head.lstrip("*- "), 1)[0]
+                if re.search(label, lab, re.I):
+                    body = it_.strip()
+                    body = re.sub(r"^[*-] +", "", body)
+                    return re.sub(r"\s+", " ", body).strip()[:2500]
+            return ""
         meta = {
             "id": mid,
             "property": pid,
             "title": title,
-            "what": para("What") or para("Edit") or para("Change"),
-            "why_it_breaks_the_property": para("Why"),
-            "needs_to_manifest": para("What is needed") or para("Needs") or para("What it needs") or para("Manifest"),
+            "what": para(r"^what( the change is| changed| it is| it does)?$|^edit$|^the change$|^change$|^mutation$") or (re.sub(r"\s+", " ", items[2]).strip()[:1500] if len(items) > 2 else ""),
+            "why_it_breaks_the_property": para(r"^why"),
+            "needs_to_manifest": para(r"needed|circumstance|manifest|trigger|needs|when it shows|specific"),
             "author_notes": sec[:6000],
             "files_touched": sorted(set(re.findall(r"^\+\+\+ b/(\S+)", open(diff).read(), re.M))),
             "confirmed_on_repo_head": head,
@@ -63,7 +70,14 @@ for pid in ["C%02d" % i for i in range(1, 21)]:
                 "cargo build --offline --all-features   (with the change: builds)",
             ],
             "confirmation": {x: v.get(x) for x in ("applies", "pristine_demo_pass", "mutant_demo_fails", "suite_passes", "builds_all_features")},
-            "detection": matrix.get(mid, {}),
+            "detection": {
+                "own_check": pid,
+                "own_check_verdict": matrix.get(mid, {}).get(pid, {}).get("verdict", "not run"),
+                "own_check_first_reports": matrix.get(mid, {}).get(pid, {}).get("first_reports", []),
+                "other_checks_that_also_report": {c: x["first_reports"][:1] for c, x in sorted(matrix.get(mid, {}).items()) if c != pid and x["verdict"] == "CAUGHT"},
+                "other_checks_silent": sorted(c for c, x in matrix.get(mid, {}).items() if c != pid and x["verdict"] == "missed"),
+                "how": "patch applied in a scratch worktree of /repo HEAD; `JSV_REPO=<worktree> ./check <ID> --tier quick` for all twenty checks (dev/run_mutants.py)",
+            },
         }
         json.dump(meta, open(os.path.join(d, "meta.json"), "w"), indent=1)
         print("packaged", mid, "|", title[:70], "| needs:", bool(meta["needs_to_manifest"]))
